@@ -387,6 +387,9 @@ def Api.regs (a : Api) : List Reg := a.frs.flatMap fun f => deref a.heap f.1
 inductive RunOpt where
   | notFound (h : Option H)      -- rest.WithNotFoundHandler(h)
   | notAllowed (h : Option H)    -- rest.WithNotAllowedHandler(h)
+  | router                       -- rest.WithRouter(router.NewRouter()): `server.router = router` (a FRESH patRouter:
+                                 -- whatever an earlier option installed on the old router is gone, including the
+                                 -- engine's not-found wrapper that `NewServer` puts in front of the user's options)
   deriving Repr, DecidableEq
 
 /-- `rest.Server{ngin, router}` as far as routing goes. -/
@@ -397,6 +400,7 @@ structure Server where
 def Server.apply (s : Server) : RunOpt → Server
   | .notFound h => { s with router := { s.router with notFound := some (.engine h) } }
   | .notAllowed h => { s with router := { s.router with notAllowed := h } }
+  | .router => { s with router := {} }
 
 /-- `rest.NewServer(c, opts...)`: `opts = append([]RunOption{WithNotFoundHandler(nil)}, opts...)`, applied in order. -/
 def newServer (opts : List RunOpt) : Server :=
@@ -420,5 +424,71 @@ def Server.regs (s : Server) : List Reg := s.groups.flatMap Group.regs
 def Server.bindRoutes (s : Server) : Server × Option HandleErr :=
   let res := bindAll s.router.core s.regs
   ({ s with router := { s.router with core := res.1 } }, res.2)
+
+/-! ### round 5: the loops of `engine.bindRoutes` as they are nested in the code, `Server.Start`, `pathvar` -/
+
+/-- `engine.bindRoutes`: `for _, fr := range ng.routes { if err := ng.bindFeaturedRoutes(router, fr, metrics); err != nil
+{ return err } }` over `bindFeaturedRoutes` = `bindAll` on the routes of ONE group: the first group that reports an
+error aborts the outer loop with that error. -/
+def bindGroups (r : Router) : List (List Reg) → Router × Option HandleErr
+  | [] => (r, none)
+  | g :: gs =>
+    match (bindAll r g).2 with
+    | none => bindGroups (bindAll r g).1 gs
+    | some e => ((bindAll r g).1, some e)
+
+/-- the groups of a server as `engine.routes` holds them. -/
+def Server.groupRegs (s : Server) : List (List Reg) := s.groups.map Group.regs
+
+/-- the groups the engine reads through its references (aliasing model). -/
+def Api.groupRegs (a : Api) : List (List Reg) := a.frs.map fun f => deref a.heap f.1
+
+/-- how `Server.Start()` ends in the harness' world (no listener can be opened): `engine.start` returns the error of
+`bindRoutes` BEFORE it tries to listen, `handleError` panics with it; otherwise the listener's error is reported. -/
+inductive StartResult where
+  | panics (e : HandleErr)      -- `handleError(err)`: `panic(err)` with the registration error
+  | listens                      -- registration succeeded: `internal.StartHttp(...)` is reached
+  deriving Repr, DecidableEq
+
+/-- `Server.Start()` = `handleError(s.ngin.start(s.router))`, `engine.start` = `bindRoutes` (nested loops), then listen. -/
+def Server.start (s : Server) : Server × StartResult :=
+  let res := bindGroups s.router.core s.groupRegs
+  ({ s with router := { s.router with core := res.1 } },
+   match res.2 with
+   | some e => .panics e
+   | none => .listens)
+
+/-- `rest.MustNewServer(c, opts...)`: `NewServer(c, opts...)` (the error branch — `c.SetUp()` failing — ends the process). -/
+def mustNewServer (opts : List RunOpt) : Server := newServer opts
+
+/-- a value stored in a `context.Context`. -/
+inductive CtxVal where
+  | vars (m : List (String × String))   -- a `map[string]string`
+  | other (s : String)                    -- anything else
+  deriving Repr, DecidableEq
+
+/-- `context.Context` as a chain of `WithValue` frames, innermost first.  Keys are compared by type AND value in Go:
+`pathvar`'s key has the unexported type `contextKey`, so no other package can build an equal key; here every key is
+a string and the pathvar key is the distinguished `pathVarsKey`. -/
+abbrev Ctx := List (String × CtxVal)
+
+def pathVarsKey : String := "rest/pathvar.contextKey(pathVars)"
+
+/-- `pathvar.WithVars(r, params)`: `r.WithContext(context.WithValue(r.Context(), pathVars, params))` -/
+def Ctx.withVars (c : Ctx) (m : List (String × String)) : Ctx := (pathVarsKey, .vars m) :: c
+
+/-- `pathvar.Vars(r)`: `vars, ok := r.Context().Value(pathVars).(map[string]string)`; `nil` when absent. -/
+def Ctx.vars (c : Ctx) : Option (List (String × String)) :=
+  match c.lookup pathVarsKey with
+  | some (.vars m) => some m
+  | _ => none
+
+/-- `ServeHTTP`: `if len(result.Params) > 0 { r = pathvar.WithVars(r, result.Params) }` — the context the route
+handler is called with. -/
+def handlerCtx (c : Ctx) (ps : Params) : Ctx :=
+  if (paramMap ps).length > 0 then c.withVars (paramMap ps) else c
+
+/-- what `pathvar.Vars(r)` shows inside the route handler (`nil` and the empty map print alike). -/
+def delivered (c : Ctx) (ps : Params) : List (String × String) := ((handlerCtx c ps).vars).getD []
 
 end GoZero.C09
